@@ -161,7 +161,7 @@ func init() {
 type scriptedRequestor struct {
 	header    *wire.BlockHeader
 	txs       []*wire.MsgTx
-	script    []int // per request: 0 deliver, 1 wrong block, 2 never answer, 3 refuse the request
+	script    []int // per request: 0 deliver, 1 wrong block, 2 never answer, 3 refuse the request, 4 drop mid-block
 	requests  int
 	active    int
 	maxActive int
@@ -199,6 +199,10 @@ func (r *scriptedRequestor) RequestBlock(ctx context.Context, hash bitcoin.Hash3
 			ch <- tx
 		}
 		close(ch)
+		announced := uint64(len(r.txs))
+		if behaviour == 4 {
+			announced++ // the connection drops before the last announced transaction arrives
+		}
 		hd := r.header
 		if behaviour == 1 {
 			c := *r.header
@@ -206,7 +210,7 @@ func (r *scriptedRequestor) RequestBlock(ctx context.Context, hash bitcoin.Hash3
 			hd = &c
 		}
 		started = true
-		err := handler(r.ctx, hd, uint64(len(r.txs)), ch)
+		err := handler(r.ctx, hd, announced, ch)
 		if err == nil && behaviour == 0 {
 			r.okReturns++
 		}
@@ -235,7 +239,7 @@ func VerifC16Manager() {
 		if silent {
 			req.script = append(req.script, 2)
 		} else {
-			req.script = append(req.script, pick("behaviour", 4))
+			req.script = append(req.script, pick("behaviour", 5))
 		}
 	}
 	concurrent := verifParam("concurrentmin", 1) + pick("concurrent", 2)
